@@ -195,6 +195,8 @@ class AsynctelnetTransport(AsyncTransport):
     def isalive(self) -> bool:
         if not self.stdin or not self.stdout:
             return False
+        if self._eof:
+            return False
         return not self.stdout.at_eof()
 
     async def _read(self, n: int = 65535) -> None:
@@ -210,6 +212,8 @@ class AsynctelnetTransport(AsyncTransport):
                 else:
                     self._cooked_buf += buf
             except (EOFError, OSError) as exc:
+                # a StreamReader keeps raising the exception the connection was lost with
+                self._eof = True
                 raise ScrapliConnectionError(
                     "encountered EOF reading from transport; typically means the device closed the "
                     "connection"
